@@ -106,9 +106,15 @@ pub enum PathKind {
     ThroughFile,
     /// `d`: an existing directory
     Dir,
+    /// `l1`: symbolic link to the existing regular file `f1`
+    LinkF1,
+    /// `l2`: symbolic link to `n2`, which does not exist at the start
+    LinkN2,
+    /// `ld/n3`: the new file `d/n3` reached through `ld`, a symbolic link to the directory `d`
+    LinkDirNew,
 }
 
-pub const ALL_PATHS: [PathKind; 8] = [
+pub const ALL_PATHS: [PathKind; 11] = [
     PathKind::F1,
     PathKind::F2,
     PathKind::N1,
@@ -117,6 +123,9 @@ pub const ALL_PATHS: [PathKind; 8] = [
     PathKind::MissingDir,
     PathKind::ThroughFile,
     PathKind::Dir,
+    PathKind::LinkF1,
+    PathKind::LinkN2,
+    PathKind::LinkDirNew,
 ];
 
 impl PathKind {
@@ -130,6 +139,20 @@ impl PathKind {
             PathKind::MissingDir => "nodir/x",
             PathKind::ThroughFile => "f1/x",
             PathKind::Dir => "d",
+            PathKind::LinkF1 => "l1",
+            PathKind::LinkN2 => "l2",
+            PathKind::LinkDirNew => "ld/n3",
+        }
+    }
+
+    /// The name (relative to the working directory, free of symbolic links) of the file the path
+    /// leads to.
+    pub fn file_name(self) -> &'static str {
+        match self {
+            PathKind::LinkF1 => "f1",
+            PathKind::LinkN2 => "n2",
+            PathKind::LinkDirNew => "d/n3",
+            other => other.text(),
         }
     }
 }
@@ -383,7 +406,7 @@ impl World {
     }
 
     fn named(p: PathKind) -> FileId {
-        FileId::Named(p.text().to_string())
+        FileId::Named(p.file_name().to_string())
     }
 
     fn open(&mut self, op: Op, p: PathKind) -> Result<usize, Step> {
@@ -409,6 +432,10 @@ impl World {
         }
         let id = Self::named(p);
         let exists = self.files.contains_key(&id);
+        if p == PathKind::LinkN2 && !exists && op == Op::Out && self.noclobber {
+            // the link exists, the file does not: POSIX only says "exists and is a regular file"
+            return Err(Step::Uncertain("noclobber and `>` on a dangling symbolic link"));
+        }
         match op {
             Op::In => {
                 if !exists {
